@@ -18,6 +18,8 @@ import (
 	"crypto/rsa"
 	"errors"
 	"fmt"
+	"os"
+	"slices"
 	"strings"
 	"sync/atomic"
 	"testing"
@@ -419,32 +421,54 @@ func TestCheck(t *testing.T) {
 		groups = append(groups, []string{"verifier", "tkid", "k1", "k2", "k3", "cache"})
 		ks = []int{2, 3, 0}
 	}
+	// Development aid: C02_PARTS=reqobj,alglist runs only the named parts. Such a run is recorded as
+	// capped (never exhaustive); the registered commands do not set the variable.
+	only := os.Getenv("C02_PARTS")
+	if only != "" && c.ReplayFile == "" {
+		c.Cap("C02_PARTS=" + only + ": only these parts were run")
+	}
+	on := func(part string) bool {
+		return only == "" || c.ReplayFile != "" || slices.Contains(strings.Split(only, ","), part)
+	}
+	// the small parts first: a deadline under load cuts the big products, not a whole dimension
 	t0 := time.Now()
-	c.RunE1(engine.E1{
-		Part:   "verify",
-		Space:  vspace,
-		Groups: groups,
-		Ks:     ks,
-		Skip:   skipVerify,
-		NewWorker: func(int) func(engine.Vec) engine.Result {
-			w := newWorker(t)
-			return w.verifyCase
-		},
-	})
-
-	c.Extra("verify_wall_s", time.Since(t0).Seconds())
-	reusePart(c, t)
+	if on("reuse") {
+		reusePart(c, t)
+	}
+	if on("reqobj") {
+		reqobjPart(c, t)
+	}
+	c.Extra("reqobj_wall_s", time.Since(t0).Seconds())
 	t0 = time.Now()
-	alglistPart(c, t)
+	if on("alglist") {
+		alglistPart(c, t)
+	}
 	c.Extra("alglist_wall_s", time.Since(t0).Seconds())
 	t0 = time.Now()
-	reqobjPart(c, t)
-	c.Extra("reqobj_wall_s", time.Since(t0).Seconds())
+	if on("verify") {
+		c.RunE1(engine.E1{
+			Part:   "verify",
+			Space:  vspace,
+			Groups: groups,
+			Ks:     ks,
+			Skip:   skipVerify,
+			NewWorker: func(int) func(engine.Vec) engine.Result {
+				w := newWorker(t)
+				return w.verifyCase
+			},
+		})
+	}
+
+	c.Extra("verify_wall_s", time.Since(t0).Seconds())
 	per := map[string]map[string]int64{}
 	for i, name := range verifiers {
 		per[name] = map[string]int64{"either": obligations[i][either].Load(), "must_accept": obligations[i][mustAccept].Load(), "must_reject": obligations[i][mustReject].Load()}
 	}
 	c.Extra("obligations_per_entry_point", per)
+	if !on("findkey") {
+		c.Finish()
+		return
+	}
 	t0 = time.Now()
 	slots := engine.Pick(c, 3, 4)
 	if c.ReplayFile != "" {
